@@ -152,5 +152,5 @@ def main(tier, seed, replay=None):
            cl.Config(n=4, crash=2, restart=2, cut=2, **fence)]
     return cc.run('C13', tier, seed, LABELS, [], e1, [], ['StepsC13', 'StepsC07'], sim, rnd,
                   n_beh=48 if q else 400, beh_depth=150, n_rnd=24 if q else 300, rnd_steps=300,
-                  e1_timeout=600 if q else 2400, inject=True, extra_scenarios=[injection_scenarios],
+                  e1_timeout=600 if q else 1500, inject=True, extra_scenarios=[injection_scenarios],
                   notes=['"only admitted peers feed process events" is decided with C12 (Replica)'])
